@@ -48,3 +48,13 @@ Theorem C18_byte_level_files_function_of_updates : forall s sp m ops s' outs,
     io_run m (List.filter is_update ops) = Ok (m'', outs'') /\
     Io.images m' = Io.images m''.
 Proof. exact byte_level_images_function_of_updates. Qed.
+
+(** ... whatever read-only calls are made in between - FULL TRAVERSALS and STATISTICS calls included (Io_wdet.v over Io_wrun.v) *)
+From Aby Require Import Io_wrun Io_wdet.
+Theorem C18_byte_level_files_function_of_updates_with_traversals : forall s sp m ops,
+  wf_state s -> represents s sp -> simg s m -> Forall (wop_wf (kt s)) ops -> wsized s ops ->
+  exists m' outs m'' outs'',
+    wio_run m ops = Ok (m', outs) /\
+    wio_run m (List.filter is_wupdate ops) = Ok (m'', outs'') /\
+    Io.images m' = Io.images m''.
+Proof. exact byte_level_images_function_of_updates_w. Qed.
